@@ -157,6 +157,7 @@ vj::Value run_blk(const vj::Value& c)
     else if(op == "DN") pre->done_numeric();
     else if(op == "DS") pre->done_symbolic();
     else if(op == "UP") set_values(1 - cur);
+    else if(op == "SO") { }      // the blocked histories keep their relaxation parameter
     else if(op == "AP")
     {
       ++napply;
